@@ -634,8 +634,53 @@ def selftest():
             b._children[-1] = self._children[-1]
         return b
 
+    from armi.reactor.grids import locations
+
+    def insert_fastpath(self, index, obj):
+        if obj in self._children:
+            raise RuntimeError("present")
+        if index >= len(self._children):
+            self.append(obj)
+            return
+        obj.parent = self
+        self._children.insert(index, obj)
+
+    def block_deepcopy_shares_grid(self, memo):
+        if self.spatialGrid is not None:
+            memo[id(self.spatialGrid)] = self.spatialGrid
+        return orig_deepcopy(self, memo)
+
+    def flags_merged(self, typeSpec, exactMatch=False):
+        from armi.reactor.flags import Flags
+        if isinstance(typeSpec, (list, tuple)):
+            merged = Flags(0)
+            for f in typeSpec:
+                merged |= f
+            typeSpec = merged
+        return self.iterChildren(predicate=lambda o: o.hasFlags(typeSpec, exactMatch))
+
+    def anc_dist_from_parent(self, fn, _distance=0):
+        if self.parent is None:
+            return None
+        if fn(self.parent):
+            return self.parent, _distance + 1
+        return self.parent.getAncestorAndDistance(fn, _distance + 1)
+
+    def multi_associate_cells_only(self, grid):
+        for loc in self._locations:
+            loc.associate(grid)
+
+    def of_type_substring(self, typeName):
+        return self.iterChildren(predicate=lambda o: typeName in o.getType())
+
     P = patched
     mutants = [
+        ("Composite.insert at/after the end appends without setting the parent", lambda: P(C, "insert", insert_fastpath)),
+        ("Block.__deepcopy__ shares the pin lattice with the original", lambda: P(blocks.Block, "__deepcopy__", block_deepcopy_shares_grid)),
+        ("iterChildrenWithFlags ORs a list of candidate flags into one", lambda: P(composites.ArmiObject, "iterChildrenWithFlags", flags_merged)),
+        ("getAncestorAndDistance starts at the parent", lambda: P(composites.ArmiObject, "getAncestorAndDistance", anc_dist_from_parent)),
+        ("MultiIndexLocation.associate forgets its own grid", lambda: P(locations.MultiIndexLocation, "associate", multi_associate_cells_only)),
+        ("iterChildrenOfType matches type names by substring", lambda: P(composites.ArmiObject, "iterChildrenOfType", of_type_substring)),
         ("Composite.insert forgets obj.parent = self", lambda: P(C, "insert", insert_no_parent)),
         ("Composite.remove keeps the locator attached", lambda: P(C, "remove", remove_keep_locator)),
         ("_iterChildren generation counter off by one (gen 3)", lambda: P(C, "_iterChildren", iter_off_by_one)),
